@@ -94,6 +94,7 @@ type apiCall struct {
 	T0, T1   int64 // issue / return (T1 < 0: never returned)
 	Gen0     int   // search generation when issued
 	Active0  bool  // a search was running when issued
+	Window0  bool  // issued between a result and the release of the running lock (either answer is right)
 	Results0 int   // results delivered before the call
 	Results1 int   // results delivered when the call returned
 	BoolRet  bool  // IsSearching result
@@ -253,7 +254,7 @@ func RunApiScript(sc *Scenario) *ApiRunOut {
 			if simExhausted(sim) {
 				break
 			}
-			c := apiCall{Step: i, Op: st.Op, T0: sim.Now(), T1: -1, Gen0: simGen(sim), Active0: simSearching(sim), Results0: drv.nResults(), Limits: st.Limits}
+			c := apiCall{Step: i, Op: st.Op, T0: sim.Now(), T1: -1, Gen0: simGen(sim), Active0: simSearching(sim), Window0: simInWindow(sim), Results0: drv.nResults(), Limits: st.Limits}
 			out.noteApiArrival(sim, st, c.Active0)
 			ci := begin(c)
 			var upd apiCall
@@ -438,6 +439,9 @@ func (out *ApiRunOut) noteApiArrival(sim *Sim, st *Step, active bool) {
 
 //go:norace
 func simBusy(s *Sim) bool { return s.BusyWaiting }
+
+//go:norace
+func simInWindow(s *Sim) bool { return s.InResultWindow }
 
 //go:norace
 func simLastEnd(s *Sim) int64 { return s.LastEndT }
